@@ -3,7 +3,9 @@ package sshagent
 import (
 	"encoding/binary"
 	"io"
+	"runtime"
 	"sync"
+	"sync/atomic"
 )
 
 // half is one direction of a buffered in-memory duplex. Blocking is on a
@@ -18,7 +20,10 @@ type half struct {
 	total  int64  // bytes ever written
 	log    []byte // copy of what was written while the tap is on
 	tap    bool
+	jitter bool
 }
+
+var jitterCtr atomic.Int64
 
 func newHalf(chunk int, tap bool) *half {
 	h := &half{chunk: chunk, tap: tap}
@@ -27,6 +32,13 @@ func newHalf(chunk int, tap bool) *half {
 }
 
 func (h *half) Write(p []byte) (int, error) {
+	if h.jitter {
+		// hostile scheduling (concurrency stream): let other writers run between a client's
+		// bookkeeping and its write, so ordering assumptions of the client are exercised
+		for k := jitterCtr.Add(1) % 4; k > 0; k-- {
+			runtime.Gosched()
+		}
+	}
 	h.mu.Lock()
 	defer h.mu.Unlock()
 	if h.closed {
